@@ -236,6 +236,8 @@ def _parse_output(res):
         res.violation = "deadlock"
     elif re.search(r"Error: Action property (\S+)", out):
         res.violation = re.search(r"Error: Action property (\S+)", out).group(1)
+    elif re.search(r"Error: Temporal property (\S+) was violated", out):
+        res.violation = re.search(r"Error: Temporal property (\S+) was violated", out).group(1)
     elif "Error: Temporal properties were violated" in out:
         res.violation = "temporal"
     elif re.search(r"Error: .*POSTCONDITION|Error: Evaluating postcondition|Postcondition .* violated", out, re.I):
